@@ -925,7 +925,7 @@ GROUP_OF = {
     'global_slice_subset': 'values', 'insert_slice_interleave': 'values', 'insert_sample_interleave': 'values',
     'copy_slice_dest': 'values', 'copy_slice_vals': 'values', 'get_changed_class': 'values',
     'copy_slice': 'subset', 'copy_sample': 'subset', 'get_subset_key': 'subset',
-    'reclassify': 'insert', 'change_class': 'insert', 'insert_slice': 'insert', 'insert_non_slice': 'insert', 'insert_sample': 'insert',
+    'reclassify': 'insert', 'insert_dispatch': 'insert', 'change_class': 'insert', 'insert_slice': 'insert', 'insert_non_slice': 'insert', 'insert_sample': 'insert',
     'header_slice_times': 'header',
     'chk_equal': 'stackadd', 'chk_close': 'stackadd', 'chk_congruent': 'stackadd', 'add_dcm': 'stackadd',
     'get_data_trim': 'data', 'file_idx_volume': 'data', 'file_idx_slice': 'data', 'get_data': 'data',
@@ -1368,6 +1368,28 @@ def translate():
              'single ordinates (`_slice_pos_vals`, `_time_vals`, `_vector_vals`) are projections of `_sorting_tuples` and are not kept. '
              'An exception leaves the attributes as they are at that point: the result is the state together with the exception raised, if any',
              prologue=['let mut st_ := st'], run='Id.run do')
+    # _insert: which insertion a key gets (body of its second loop over `other_keys`)
+    body2 = None
+    f = find_func(dm, 'DcmMetaExtension', '_insert')
+    if f is not None:
+        for node in ast.walk(f):
+            if isinstance(node, ast.For) and len(node.body) == 1 and isinstance(node.body[0], ast.If) \
+                    and ast.unparse(node.body[0].test) == 'dim == self.slice_dim':
+                body2 = node.body
+    if body2 is None:
+        missing.append('insert_dispatch: loop with `if dim == self.slice_dim:` not found in _insert')
+    else:
+        args = 'null self_shape self_n_slices d_ self_slice_dim content other_shape other_n_slices other_values other_class'
+        tr = TrKeyDict({'dim == self.slice_dim': '(some dim == self_slice_dim)'}, {})
+        tr.stmt_map = {'self._insert_slice(key, other)': ['d_ := (← insert_slice %s)' % args],
+                       'self._insert_non_slice(key, other)': ['d_ := (← insert_non_slice %s)' % args],
+                       "self._insert_sample(key, other, 'time')": ['d_ := (← insert_sample %s "time")' % args],
+                       "self._insert_sample(key, other, 'vector')": ['d_ := (← insert_sample %s "vector")' % args]}
+        emit('insert_dispatch', KD_SIG + OTHER_SIG + ' (dim : Nat) : Except PyErr (KeyDict α)',
+             body2 + [ast.parse('return').body[0]], tr,
+             'which insertion `DcmMetaExtension._insert(dim, other)` applies to one key (dcmmeta.py, body of its second loop over the '
+             'keys of `other`): along the slice axis, another spatial axis, time, vector — and nothing for any other `dim`',
+             prologue=['let mut d_ := d'])
     # ---- per-key dictionary edits of subsets (group `subset`): _copy_slice, _copy_sample for one key of `other`
     def per_key(stmts):
         """the body of the method for one key: loops over the keys of `src_dict` are replaced by their bodies"""
